@@ -49,7 +49,8 @@ def main(argv=None):
 
             extra = selftest.run_for(prop, a.repo, seed)
         meta = props.PROPS[prop]
-        return finish(run, meta["level"], props.ASSUMPTIONS + meta.get("assumptions", []), meta["undecided"], extra)
+        return finish(run, meta["level"], props.ASSUMPTIONS + meta.get("assumptions", []), meta["undecided"], extra,
+                      exhaustive=meta.get("exhaustive", False))
     except Exception as ex:  # never a traceback exit (would look like a violation)
         print(f"ANALYSIS-ERROR property={prop} analyser crashed: {ex!r}")
         traceback.print_exc(limit=6, file=sys.stdout)
